@@ -94,7 +94,7 @@ def parse_puml(text):
             elif l=='detach' or l=='kill': seq.append(('detach',)); pos+=1
             elif l=='break': seq.append(('break',)); pos+=1
             elif l=='repeat':
-                pos+=1; body=pseq({'repeat while'}); pos+=1; seq.append(('loop',body))
+                pos+=1; body=pseq({'repeat while','repeat while ('}); pos+=1; seq.append(('loop',body))
             elif l=='fork' or l=='split':
                 kind='and' if l=='fork' else 'or'
                 again=l+' again'; end='end '+l
@@ -108,9 +108,9 @@ def parse_puml(text):
                     pos+=1; brs.append(pseq({'case (','endswitch'}))
                 pos+=1; seq.append(('xor',brs))
             elif l.startswith('if '):
-                pos+=1; brs=[pseq({'else (','elseif (','endif'})]
+                pos+=1; brs=[pseq({'else','else (','elseif (','endif'})]
                 while lines[pos].startswith('else'):
-                    pos+=1; brs.append(pseq({'else (','elseif (','endif'}))
+                    pos+=1; brs.append(pseq({'else','else (','elseif (','endif'}))
                 pos+=1; seq.append(('xor',brs))
             else: raise ValueError(l)
         return seq
